@@ -5,6 +5,7 @@ import (
 	"go/ast"
 	"go/constant"
 	"go/types"
+	"os"
 	"sort"
 	"strings"
 
@@ -99,15 +100,13 @@ func init() {
 var c13FixtureWant = []string{
 	"C13-N1:replaceRowHandler/replaced",
 	"C13-N1:replaceRowHandler/new,replaced,replaced",
-	"C13-N1:updateRowHandler/eq/found-rows",
-	"C13-N1:updateRowHandler/neq/found-rows",
-	"C13-N1:updateRowHandler/ignored/found-rows",
 	"C13-N1:updateRowHandler/eq,neq,neq,ignored/found-rows",
 	"C13-N1:updateJoinRowHandler/matched,matched,matched,j:10,j:01/found-rows",
 	"C13-N2:choice/deleteIter",
+	"C13-N2:chosen/deleteRowHandler",
 	"C13-N2:flag/updateRowHandler",
 	"C13-N2:forward/blockIter",
-	"C13-N2:total/updateJoinIter",
+	"C13-N2:total/loadIter",
 	"C13-N3:accumulatorIter.Next/handle-once",
 	"C13-N3:accumulatorIter.Next/exits",
 	"C13-N4:insertIter.Next/replacer.Delete",
@@ -150,7 +149,7 @@ func runC13(c *Ctx, nm c13Names, fx bool) {
 		return n
 	}
 	c.Rule("C13-N1", "row-count handlers folded over row shapes x CLIENT_FOUND_ROWS yield MySQL's documented affected/matched accounting", floor(29))
-	c.Rule("C13-N2", "getRowHandler gives every DML iterator kind the handler of the same statement kind, forwards the found-rows flag, couples iterator and handler, is total over the wrapped iterators", floor(20))
+	c.Rule("C13-N2", "getRowHandler gives every DML iterator kind the handler of the same statement kind, forwards the found-rows flag, couples iterator and handler, is total over the wrapped iterators", floor(25))
 	c.Rule("C13-N3", "accumulatorIter.Next: each child row reaches the handler exactly once, the result is emitted once and only at io.EOF, errors are returned without a result", floor(4))
 	c.Rule("C13-N4", "between two pulls of its source the REPLACE iterator deletes at most one existing row per emitted row", floor(1))
 
@@ -187,6 +186,13 @@ func runC13(c *Ctx, nm c13Names, fx bool) {
 	c13RunN2(e)
 	c13RunN3(e)
 	c13RunN4(e)
+	if os.Getenv("C13_DEBUG") != "" {
+		for _, o := range c.Obs {
+			if o.Status != OK {
+				fmt.Fprintf(os.Stderr, "C13_DEBUG fx=%v %s:%s %s %s\n", fx, o.Rule, o.Key, o.Status, o.Msg)
+			}
+		}
+	}
 }
 
 // ---- N1 ------------------------------------------------------------------------------------------
